@@ -140,7 +140,7 @@ func getConfigBatch(c *Ctx, driver string, listings [][]byte) [][]struct {
 
 func checkC15(c *Ctx) {
 	c.Ev.Level = "model_checking"
-	c.Ev.Rule = "ConfigMC: all listings of <=3(4) records over refgroup keys, look-alike and foreign keys, and value shapes (empty, plain, with LF, imitating a key line, no value): the reference NUL-first reader inverts serialisation, the reader as coded agrees with it, foreign entries never change a refgroup section; every listing is served by a fake git to the real Repository.GetConfig and the answers for 4 prefixes compared with the spec's; ConfigKeysMC: all listings of <=2(3) records over refgroup subsections of <=3 characters over {a, .} (empty components, leading and trailing dots, the empty subsection), a built-in group and its child, include/exclude/name/unknown variables, look-alike and foreign sections: the coded reading of the keys (configKeyMatchesPrefix, splitKey, parentName, getGroup, augmentFromConfig, fillInTree, collectSymbols) equals the declarative reading of git's section/subsection/variable structure (tree, rules, names, refusal of undefined groups, rows, classification of 4 probes), the code before 8fe0c6c is refuted, and every listing is replayed into the real refopts.RefGroupBuilder through a fake git; random CLI scenarios with refgroups spread over local/global/system/command/included scopes, value-less foreign keys, multi-line and empty values, dotted and capitalised subsections: git's own listing (NUL-first) is the input of RefsJudge, which judges selection and tallies; distinct = distinct listings / scenarios"
+	c.Ev.Rule = "ConfigMC: all listings of <=3(4) records over refgroup keys, look-alike and foreign keys, and value shapes (empty, plain, with LF, imitating a key line, no value): the reference NUL-first reader inverts serialisation, the reader as coded agrees with it, foreign entries never change a refgroup section; every listing is served by a fake git to the real Repository.GetConfig and the answers for 4 prefixes compared with the spec's; ConfigKeysMC: all listings of <=2(3) records over refgroup subsections of <=3 characters over {a, .} (empty components, leading and trailing dots, the empty subsection), a built-in group and its child, include/exclude/includeregexp/excluderegexp/name/unknown variables, look-alike and foreign sections: the coded reading of the keys (configKeyMatchesPrefix, splitKey, parentName, getGroup, augmentFromConfig, fillInTree, collectSymbols) equals the declarative reading of git's section/subsection/variable structure (tree, rules, names, refusal of undefined groups, rows, classification of 6 probes), the code before 8fe0c6c is refuted, and every listing is replayed into the real refopts.RefGroupBuilder through a fake git; random CLI scenarios with refgroups spread over local/global/system/command/included scopes, value-less foreign keys, multi-line and empty values, dotted and capitalised subsections: git's own listing (NUL-first) is the input of RefsJudge, which judges selection and tallies; distinct = distinct listings / scenarios"
 	env := newScanEnv(c, true, true)
 	maxRecs := 2
 	if !quick(c) {
